@@ -53,7 +53,7 @@ class C10(Check):
                    'every module with an injected error, and no configured value has reached any driver',
                    'values are compared in wire form by the harness\' own conversion']
     PROBES = ('c10.good-config', 'c10.bad-config', 'c10.multi-file', 'c10.limits-overridden', 'c10.write-configured',
-              'c10.several-errors', 'c10.restart', 'c10.internal-write-probe') + tuple(f'c10.err.{k}' for k in ERROR_KINDS)
+              'c10.several-errors', 'c10.restart', 'c10.internal-write-probe', 'fault.start-up-write-comfail') + tuple(f'c10.err.{k}' for k in ERROR_KINDS)
 
     def gen_case(self, rng, tier):
         specs = []
@@ -144,6 +144,12 @@ class C10(Check):
         shape = {'p_switch': rng.choice([0.1, 0.3]), 'line_gaps': rng.choice([0, 0, 10]),
                  'specs': specs, 'cfgs': cfgs, 'nfiles': nfiles,
                  'first_write_slow': rng.random() < 0.2, 'restart': rng.random() < 0.25}
+        # one configured start-up write fails once with a communication error (the connection drops for one request)
+        written = [(m, e['p']) for m in names if not cfgs[m]['errors'] for e in cfgs[m]['entries']
+                   if e['value'] is not None and next(p for s in specs if s['name'] == m for p in s['params']
+                                                      if p['name'] == e['p']).get('write')]
+        if written and rng.random() < 0.25:
+            shape['write_comfail'] = list(rng.choice(written))
         return {'shape': shape, 'ops': []}
 
     # ------------------------------------------------------------------ config text
@@ -209,6 +215,10 @@ class C10(Check):
         drv = ctx['drv'] = genmod.Driver(sim)
         if shape['first_write_slow']:
             drv.scripts['*.write_target'] = [[0.5, 'ok']]
+        if shape.get('write_comfail'):
+            wm, wp = shape['write_comfail']
+            drv.scripts[f'{wm}.write_{wp}'] = [[0, 'comfail']] + [[0, 'ok']] * 50
+            sim.count('fault.start-up-write-comfail')
         classes = []
         REG.clear()
         for spec in shape['specs']:
